@@ -1,6 +1,8 @@
 import PycsepVerif.Proto
 import PycsepVerif.Model.BinaryBrier
 import PycsepVerif.Model.BinaryTests
+import PycsepVerif.Model.MaskedOps
+import PycsepVerif.Model.BinaryPublic
 /-! driver ops of C16 (Float instance of Model/BinaryBrier). Floats travel as IEEE-754 bit patterns.
     `c16_bll <rates> <counts>`, `c16_brier <dims> <rates> <counts>`,
     `c16_test <S|CL|BO> <data rows> <count rows>`, `c16_bsim <data rows> <sim counts>`, `c16_cells <data rows> <count rows>` (binary_spatial_likelihood),
@@ -24,7 +26,72 @@ def showOut (o : Option (TestOut Float)) : String :=
     " ".intercalate (showFloat out.obs :: out.sims.map showFloat) ++ " | " ++ s!"{out.q.1}/{out.q.2}" ++ " | " ++
       (if out.arrays.isEmpty then "-" else ";".intercalate (out.arrays.map (showList toString)))
 
+/-- `c:b` with `-1` for none (an event's cell / magnitude-bin lookups) -/
+def parseEv? (s : String) : Option Gridding.Ev :=
+  match s.splitOn ":" with
+  | [c, b] => do
+      let ci ← c.toInt?
+      let bi ← b.toInt?
+      some ⟨if ci < 0 then none else some ci.toNat, if bi < 0 then none else some bi.toNat⟩
+  | _ => none
+
+def parseMask? (s : String) : Option Bool :=
+  if s = "1" then some true else if s = "0" then some false else none
+
+def showMa (m : Ma.MArr Float) : String :=
+  showList showFloat (m.map (·.data)) ++ " " ++ showList (fun b => if b then "1" else "0") (m.map (·.mask))
+
 def handle : List String → Option String
+  -- c16_ma <where|neg|exp|rsub|log|rmul> <data bits> <mask 0/1> <y bits|-> : ONE numpy.ma primitive on a masked array
+  | ["c16_ma", op, ds, ms, ys] => some (match parseList? parseFloat? ds, parseList? parseMask? ms, parseList? parseFloat? ys with
+      | some ds, some ms, some ys =>
+        if ds.length ≠ ms.length then "bad-op" else
+        let m : Ma.MArr Float := (ds.zip ms).map (fun p => ⟨p.1, p.2⟩)
+        (match op with
+         | "where" => showMa (Ma.maskedWhereLe0 ds)
+         | "neg" => showMa (Ma.neg m)
+         | "exp" => showMa (Ma.exp m)
+         | "rsub" => showMa (Ma.rsubOne m)
+         | "log" => showMa (Ma.log m)
+         | "rmul" => if ys.length ≠ ds.length then "bad-op" else showMa (Ma.rmulArr ys m)
+         | "filled0" => showList showFloat (Ma.filled0 m)
+         | _ => "bad-op")
+      | _, _, _ => "bad-op")
+  -- c16_bll_ma <rates> <counts> : binary_joint_log_likelihood_ndarray as the composition of the numpy.ma primitives
+  | ["c16_bll_ma", rs, cs] => some (match parseList? parseFloat? rs, parseList? parseNat? cs with
+      | some rs, some cs =>
+        if rs.length ≠ cs.length then "bad-op" else showFloat (Ma.binaryLLMa (α := Float) (rs.zip cs))
+      | _, _ => "bad-op")
+  -- c16_publicN <S|CL|B> <ncell> <nbin> <rates n/d> <rates bits> <events> <num_simulations> <rows> : num_simulations given
+  --   separately from the injected rows (the first num_simulations rows are read)
+  | ["c16_publicN", m, nc, nb, rq, rb, evs, k, rows] =>
+      some (match nc.toNat?, nb.toNat?, parseList? parseRat? rq, parseList? parseFloat? rb, parseList? parseEv? evs,
+                  k.toNat?, parseRows? rows with
+      | some nc, some nb, some rq, some rb, some evs, some k, some rows =>
+        if rq.length ≠ rb.length then "bad-op" else
+        let pm : Option PMode := match m with | "S" => some .S | "CL" => some .CL | "B" => some .B | _ => none
+        (match pm with
+         | none => "bad-op"
+         | some pm => (match publicBinaryTestN (α := Float) pm rq rb nc nb evs k rows with
+             | .error .outside => "error-outside"
+             | .error .belowMin => "error-below-min"
+             | .ok o => showOut o))
+      | _, _, _, _, _, _, _ => "bad-op")
+  -- c16_public <S|CL|B> <ncell> <nbin> <rates n/d> <rates bits> <events c:b,…> <rows> : a public test on a catalog given by
+  --   its events' (cell, magnitude-bin) lookups: C03 gridding -> observed array -> the whole test
+  | ["c16_public", m, nc, nb, rq, rb, evs, rows] =>
+      some (match nc.toNat?, nb.toNat?, parseList? parseRat? rq, parseList? parseFloat? rb, parseList? parseEv? evs,
+                  parseRows? rows with
+      | some nc, some nb, some rq, some rb, some evs, some rows =>
+        if rq.length ≠ rb.length then "bad-op" else
+        let pm : Option PMode := match m with | "S" => some .S | "CL" => some .CL | "B" => some .B | _ => none
+        (match pm with
+         | none => "bad-op"
+         | some pm => (match publicBinaryTest (α := Float) pm rq rb nc nb evs rows with
+             | .error .outside => "error-outside"
+             | .error .belowMin => "error-below-min"
+             | .ok o => showOut o))
+      | _, _, _, _, _, _ => "bad-op")
   | ["c16_bll", rs, cs] => some (match parseList? parseFloat? rs, parseList? parseNat? cs with
       | some rs, some cs =>
         if rs.length ≠ cs.length then "bad-op" else showFloat (binaryLL (α := Float) (rs.zip cs))
